@@ -724,6 +724,10 @@ impl<'a> CompileState<'a> {
                 if let Some(field_count) = NonZeroUsize::new(field_count) {
                     self.append_instruction(Instruction::MStructGet(field_count));
                     self.append_instruction(Instruction::MStructSet(field_count));
+                } else {
+                    // Nothing to copy into a field-less struct: drop the
+                    // source struct so only the new struct remains.
+                    self.append_instruction(Instruction::Pop);
                 }
             }
             thir::ExprKind::Cast(lhs, rhs_ident) => {
